@@ -41,12 +41,16 @@
 (*    there is without reading the image is the documented estimate of     *)
 (*    node_size.go (manifest size n -> ((n - 80) div 42) blocks of 64 MiB, *)
 (*    none for a non-PDH or tiny manifest); it is used here as the         *)
-(*    REFERENCE for "the image", nothing more.  Least demanding reading:   *)
-(*    the tmp mounts plus the image once (NeedLow = tmp + img: the load    *)
-(*    buffer shares space with tmp, or is not needed).  Most demanding:    *)
-(*    tmp plus buffer plus extracted image (NeedHigh = tmp + 2 * img).     *)
+(*    REFERENCE for "the image", nothing more.  Least demanding reading    *)
+(*    (the floor a pick must reach): the tmp mounts plus that estimate     *)
+(*    once (NeedLow = tmp + img: the load buffer shares space with tmp or  *)
+(*    is not needed); where the estimate is 0 (not a PDH, tiny manifest)   *)
+(*    the floor is tmp alone.  Most demanding reading (a type is CERTAINLY *)
+(*    adequate, so that "a cheaper adequate type exists" or "it was not    *)
+(*    unsatisfiable" may be claimed, only above it): tmp + 4 * img, and    *)
+(*    tmp + 1 GiB where the estimate is 0 - another estimator (real size,  *)
+(*    rounded up, a flat reservation for unknown images) stays below it.   *)
 (*    The code's own figure max(tmp, img) + img lies between the two.      *)
-(*    A different size estimate within these readings is not rejected.     *)
 (*  - preemptibility is required to MATCH (a non-preemptible container is  *)
 (*    not put on a preemptible type and vice versa): the statement says    *)
 (*    the type "satisfies ... preemptibility"; running a preemption-       *)
@@ -77,7 +81,8 @@ NeedScratch(i) == LET img == ImgSize(i.imgn)               \* the code's figure
                       tmp == SumSeq(i.tmps)
                   IN  (IF tmp < img THEN img ELSE tmp) + img
 NeedLow(i)  == SumSeq(i.tmps) + ImgSize(i.imgn)
-NeedHigh(i) == SumSeq(i.tmps) + 2 * ImgSize(i.imgn)
+Allowance == 1073741824            \* 1 GiB
+NeedHigh(i) == SumSeq(i.tmps) + (IF ImgSize(i.imgn) = 0 THEN Allowance ELSE 4 * ImgSize(i.imgn))
 
 NeedSum(i) == i.ram + i.kc + i.reserve
 
